@@ -59,6 +59,14 @@ def run(ctx):
             for allplat in (False, True):
                 extra.append(dict(entry=entry, limit=300, nlp=rnd.random() < 0.5, fuzzy=entry != "pipeline", thr=0, ponly=True, pboost=rnd.random() < 0.5,
                                   allplat=allplat, plats=[], nocross=False, boost=False, query=qk, corpus="plat"))
+    # a cached answer, then the returned entries edited in place so that the filter in force excludes them, the wrapper told
+    # (UpdateDatabase with the slice it serves), the same search again: cached answers obey the filters like fresh ones
+    for qk in ("lex", "typo"):
+        for nlp in (False, True):
+            for plats, ponly, allplat in (([], False, False), (["linux"], False, False), (["macos", "linux"], False, False), ([], True, True), ([], True, False)):
+                for corpus in ("mix", "plat"):
+                    extra.append(dict(entry="cachededit", limit=300, nlp=nlp, fuzzy=True, thr=0, ponly=ponly, pboost=False, allplat=allplat, plats=plats,
+                                      nocross=False, boost=False, query=qk, corpus=corpus, prime="none"))
     tr, info, ok, rej = engine.run_cases(ctx, scen + extra, ["C04"])
     for x in rej:
         ev = json.loads(x["trace"][x["at"] - 1])
